@@ -19,6 +19,9 @@ EXPLANATION = (
     'must be positive resp. negative. C13.3: 2D wiring (refusing objects). C13.4 delegation: every accessor reaches data '
     'only through public reader methods whose parameters C14 discharges, and negative ordinals are normalised by '
     'len + i (or slice.indices(len)) before the call.')
+EXPLANATION += (
+    ' ADDED: C13.2 now follows segyio.line.sanitize_slice: an absent or positive step runs towards larger line numbers (default start min(keys), stop max(keys)+1), a negative step the other way (max(keys), min(keys)-1), and the default step is |increment|; first / last key are extremes only on an ascending axis. C13.5: slice components are compared with None, never tested for truth. C13.6: per concrete accessor class, every value handed to values_function is in the index space (ordinal vs line number / coordinate) that the bound reader method takes, including iteration over keys_object.'
+)
 ASSUMPTIONS = ['segyio yields all lines for f.iline[:] whatever the sign of the line increment', 'names denote what they say']
 NOT_DECIDED = ('Kind/shape/key equality with segyio, which line numbers a stepped slice selects, attributes(field)[...], text, '
                'bin, tools.dt values, parity of rejections.')
